@@ -148,7 +148,10 @@ impl RngCore for ScriptedRng {
             if self.pos < self.stream.len() {
                 *d = self.stream[self.pos];
             } else {
-                *d = 0;
+                // beyond the script: a NON-zero filler, so that code which
+                // re-draws "until non-zero" terminates and the over-draw is
+                // reported instead of hanging the harness
+                *d = 0x5a;
                 self.exhausted = true;
             }
             self.pos += 1;
